@@ -480,6 +480,47 @@ fn explore(ctx: &Ctx, rep: &mut Report) {
     });
     rep.merge(r);
     rep.mark_exhaustive("sort-arrays", &format!("every array of length 0..={slen} over a 24-value alphabet (all type ranks, equal and unequal members of each rank) = {n}"));
+    // 2b. arrays of objects for sort/unique: jq orders objects by their *sorted* key sets and then by the values
+    // key by key in sorted-key order — insertion order must not matter. The alphabet has every object over keys
+    // {a, b} x values {0, 1} in BOTH insertion orders (so values conflict: {"b":0,"a":1} vs {"b":1,"a":0}),
+    // plus different key sets and a three-key object written out of order.
+    let obj_alpha: Vec<String> = {
+        let mut v = Vec::new();
+        for x in 0..2 {
+            for y in 0..2 {
+                v.push(format!("{{\"a\":{x},\"b\":{y}}}"));
+                v.push(format!("{{\"b\":{y},\"a\":{x}}}"));
+            }
+        }
+        for o in ["{}", "{\"a\":0}", "{\"a\":1}", "{\"b\":0}", "{\"c\":0}", "{\"c\":0,\"a\":1}", "{\"a\":1,\"c\":0}", "{\"c\":2,\"b\":1,\"a\":0}", "{\"b\":2,\"c\":1,\"a\":0}", "{\"name\":\"alice\",\"age\":40}", "{\"name\":\"bob\",\"age\":30}", "{\"b\":[1],\"a\":[2]}", "{\"b\":[2],\"a\":[1]}"] {
+            v.push(o.to_string());
+        }
+        v
+    };
+    let obj_vals: Vec<V> = obj_alpha.iter().map(|s| parse_json(s).unwrap()).collect();
+    let olen = ctx.pick(3, 4);
+    let n = count_strings(obj_vals.len() as u64, olen);
+    let r = par_range_in(ctx, "sort-objects", n, 1024, |i, rep| {
+        let idx = nth_seq(obj_vals.len(), olen, i);
+        let v = V::Arr(idx.iter().map(|&k| obj_vals[k].clone()).collect());
+        let text = v.to_json();
+        let d = Doc::new(text.as_bytes());
+        let c = Case { fam: "sort-objects", v: &v, text: &text };
+        rep.input();
+        let V::Arr(items) = &v else { unreachable!() };
+        for which in 0..2 {
+            check_sort(&c, &d, which, items, rep);
+        }
+        if idx.len() >= 2 {
+            rep.distinct(&text);
+        }
+        if i == 7000 {
+            rep.sample(|| json!({"family":"sort-objects","value":text}));
+        }
+    });
+    rep.merge(r);
+    rep.mark_exhaustive("sort-objects", &format!("every array of length 0..={olen} over a {}-object alphabet (keys {{a,b}} x values {{0,1}} in both insertion orders, other key sets, out-of-order three-key objects) = {n}", obj_vals.len()));
+    rep.extra.insert("sort_object_alphabet".into(), json!(obj_alpha));
     // 3. strings
     let strlen = ctx.pick(4, 5);
     let n = count_strings(STR_ALPHA.len() as u64, strlen);
